@@ -23,6 +23,11 @@ func (c *fctx) lvalSet(e ast.Expr, val string) {
 		}
 		v := c.localVar(x)
 		if v == nil {
+			if gv, ok := c.info.Uses[x].(*types.Var); ok && gv.Pkg() != nil && gv.Parent() == gv.Pkg().Scope() && c.t.globalOK[gv] && c.fi.isInit {
+				c.fi.usesGlobals = true
+				c.letPure("G_", "Globals", "{ G_ with "+san(gv.Name())+" := "+val+" }")
+				return
+			}
 			c.fail(e, "assignment to %s", x.Name)
 		}
 		c.letPure(c.name(v), c.vtype(e, v), val)
